@@ -1459,7 +1459,17 @@ class ComponentSpecification(experiment.model.interface.InternalRepresentationAt
                 pattern = experiment.model.frontends.flowir.pattern_whole_reference(original_reference)
                 arguments = pattern.sub(lambda m, replacement=replacement: replacement, arguments)
 
-            blueprint_name = self.identification.componentName.rstrip('0123456789')
+            # VV: Only a replica carries a suffix (its replica index) on top of the name of its blueprint. A component
+            #     which exists under its own name in the unreplicated FlowIR (e.g. `step2`) is its own blueprint
+            blueprint_name = self.identification.componentName
+            unreplicated = self.workflowGraph.configuration._unreplicated
+            if (self.identification.stageIndex, blueprint_name) not in unreplicated.get_component_identifiers(False):
+                replica = self.workflowGraph.configurationForNode(
+                    self.identification.identifier, raw=True, omitDefault=True, is_primitive=True
+                ).get('variables', {}).get('replica')
+                suffix = '' if replica is None else str(replica)
+                if suffix and blueprint_name.endswith(suffix):
+                    blueprint_name = blueprint_name[:-len(suffix)]
 
             # VV: We need to fetch the executables before they were resolved. We don't want to have to resolve
             #     the executables of archived experiments before generating the memoization hashes of the components
